@@ -489,7 +489,52 @@ func (ix *index) observe(full bool) {
 	}
 	if len(ids) > 0 {
 		ix.iter(int64(ids[ix.r.Intn(len(ids))]), fs[ix.r.Intn(len(fs))])
+		// seek onto the last element of a restart section / of a block, then continue with Next
+		cands := []int{}
+		for _, b := range []int{255, 511, 767} {
+			if b < len(ids) {
+				cands = append(cands, b)
+			}
+		}
+		pos := 0
+		for _, d := range ix.meta() {
+			pos += d.Entries
+			if pos-1 < len(ids) {
+				cands = append(cands, pos-1)
+			}
+		}
+		if len(cands) > 0 {
+			b := cands[ix.r.Intn(len(cands))]
+			start := b + 300
+			if start >= len(ids) {
+				start = len(ids) - 1
+			}
+			_ = start
+			ix.iterN(int64(ids[b]-1), fs[0], 3)
+		}
 	}
+}
+
+// iterN = SeekGT(q) followed by at most n Next calls (prefix of the expected iteration).
+func (ix *index) iterN(q int64, f int, n int) {
+	r := ix.reader()
+	if r == nil {
+		return
+	}
+	it := r.NewIterator(f)
+	ids := []uint64{}
+	if it.SeekGT(uint64(q)) {
+		ids = append(ids, it.ID())
+		for i := 0; i < n && it.Next(); i++ {
+			ids = append(ids, it.ID())
+		}
+	}
+	if err := it.Error(); err != nil {
+		ix.sum.Violate(fmt.Sprintf("iteration (seek %d, filter %d) failed: %v", q, f, err), tl.M{"q": q, "f": f})
+		return
+	}
+	ix.tr.Emit(tl.M{"op": "iterN", "q": q, "f": f, "n": n + 1, "ids": ids})
+	ix.sum.Count("iterN")
 }
 
 // nextIDs produces n ascending ids above base with a seeded mix of gaps (1-byte to 5-byte deltas).
@@ -710,6 +755,13 @@ func extOf(m map[string]any) []uint16 {
 	return out
 }
 
+func planFilters(bsize int) []int {
+	if bsize == 0 {
+		return []int{-1}
+	}
+	return []int{-1, 0, 1, 2, 3, 17, 33, 45}
+}
+
 func (ix *index) runPlan(p plan) {
 	for _, a := range p.Acts {
 		switch a["op"].(string) {
@@ -731,7 +783,7 @@ func (ix *index) runPlan(p plan) {
 		case "finish":
 			if ix.w != nil || ix.d != nil {
 				ix.finish()
-				for _, f := range ix.filters() {
+				for _, f := range planFilters(ix.bsize) {
 					ix.iter(-1, f)
 				}
 				for _, d := range ix.meta() {
@@ -745,7 +797,8 @@ func (ix *index) runPlan(p plan) {
 			tl.Fatal("unknown plan op %v", a["op"])
 		}
 		if ix.w == nil && ix.d == nil {
-			ix.read(uint64(ix.r.Intn(8)), ix.filters()[ix.r.Intn(len(ix.filters()))])
+			fs := planFilters(ix.bsize)
+			ix.read(uint64(ix.r.Intn(8)), fs[ix.r.Intn(len(fs))])
 		}
 	}
 }
